@@ -72,6 +72,9 @@ func (x *Exec) constVal(t types.Type, cv constant.Value) Val {
 		if kindOfType(t) == KFloat {
 			return Val{K: KFloat, T: t, S: x.eng.floatConst(cv.ExactString())}
 		}
+		if n.Cmp(big1) > 0 && n.BitLen() < 64 {
+			x.eng.litConsts[n.String()] = true
+		}
 		return constInt(t, n)
 	case constant.String:
 		return Val{K: KStr, T: t, S: x.eng.strConst(constant.StringVal(cv))}
